@@ -26,6 +26,33 @@ func stringConsts(fn *ssa.Function) map[string]bool {
 			if s, ok := sx.ConstString(*op); ok {
 				out[s] = true
 			}
+			// a package-level value (a tag hoisted out of the function): the constant strings its initialiser stores into it
+			var g *ssa.Global
+			switch x := (*op).(type) {
+			case *ssa.Global:
+				g = x
+			case *ssa.FieldAddr:
+				g, _ = x.X.(*ssa.Global)
+			}
+			if g != nil && g.Pkg != nil {
+				if init := g.Pkg.Func("init"); init != nil {
+					sx.Instrs(init, func(i2 ssa.Instruction) {
+						st, ok := i2.(*ssa.Store)
+						if !ok {
+							return
+						}
+						base := st.Addr
+						if fa, ok := base.(*ssa.FieldAddr); ok {
+							base = fa.X
+						}
+						if base == ssa.Value(g) {
+							if s, ok := sx.ConstString(st.Val); ok {
+								out[s] = true
+							}
+						}
+					})
+				}
+			}
 		}
 	})
 	return out
@@ -104,6 +131,9 @@ func runC15(p *core.Prog, r *core.Report) {
 		r.Fail("C15-R1", "anchor Logger.Relay", "-", "method not found")
 		return
 	}
+	// the inlined view: private helpers of the package (an emit helper, attribute builders, a recover method's helpers)
+	// are seen in place, also inside Relay's deferred closures
+	relay = p.Inl(relay)
 	// handler call: dynamic call of a value loaded from RouteInfo.HandlerFunc
 	var hcall *ssa.Call
 	sx.Instrs(relay, func(in ssa.Instruction) {
@@ -276,6 +306,46 @@ func runC15(p *core.Prog, r *core.Report) {
 		if n == 0 {
 			r.Fail("C15-R2", "Relay recover path sends 500", p.FuncPos(recClosure), "no response write in the recover path: a handler that panics before writing leaves the client without a status")
 		}
+		// the converse: the 500 does not depend on the log level — once the handler is known to have panicked, a path on
+		// which the Error level is disabled still reaches the 500 (or finds a status already recorded)
+		{
+			wcut := sx.Cut{Instrs: map[ssa.Instruction]bool{}, Edges: map[sx.Edge]bool{}}
+			sx.Instrs(recClosure, func(in ssa.Instruction) {
+				c, ok := in.(ssa.CallInstruction)
+				if !ok {
+					return
+				}
+				name := sx.CalleeName(c)
+				callee := sx.StaticCallee(c)
+				if name == "net/http.Error" || name == "net/http.Redirect" || (callee != nil && writers[sx.OrigFunc(callee)]) ||
+					(c.Common().IsInvoke() && (c.Common().Method.Name() == "WriteHeader" || c.Common().Method.Name() == "Write") && strings.Contains(c.Common().Value.Type().String(), "ResponseWriter")) {
+					wcut.Instrs[in] = true
+				}
+			})
+			for e := range zero {
+				wcut.Edges[sx.Edge{From: e.From, Idx: 1 - e.Idx}] = true // a status was already recorded: nothing to send
+			}
+			okConv, whyConv := true, ""
+			sx.Instrs(recClosure, func(in ssa.Instruction) {
+				en, ok := in.(*ssa.Call)
+				if !ok || !en.Call.IsInvoke() || en.Call.Method.Name() != "Enabled" {
+					return
+				}
+				for _, e := range enabledEdges(en) {
+					dis := sx.Edge{From: e.From, Idx: 1 - e.Idx}
+					if len(recNonNil) == 0 || !sx.MustPass(recClosure, nil, dis.From.Instrs[len(dis.From.Instrs)-1], sx.Cut{Edges: recNonNil}) {
+						continue // a level test made before the panic is known
+					}
+					tb := dis.To()
+					for _, ret := range sx.Returns(recClosure) {
+						if len(tb.Instrs) > 0 && (tb.Instrs[0] == ssa.Instruction(ret) || sx.ReachInstr(recClosure, tb.Instrs[0], ret, wcut)) {
+							okConv, whyConv = false, "with the Error level disabled (edge at "+p.Pos(en.Pos())+") the recover path returns without sending the 500 and without having found a recorded status"
+						}
+					}
+				}
+			})
+			r.Check(okConv, "C15-R2", "Relay recover path: the 500 does not depend on the log level", p.FuncPos(recClosure), "every path on which the Error level is disabled still reaches the response write or the Status != 0 edge", whyConv+": a handler that panics before writing leaves the client with an empty 200")
+		}
 	}
 
 	// ---- R3
@@ -288,7 +358,12 @@ func runC15(p *core.Prog, r *core.Report) {
 		// 0 -> 200 default only in END closure
 		okDef := true
 		var where []string
-		for _, fn := range p.PkgFuncs("logger") {
+		var loggerFns []*ssa.Function
+		for _, v := range pkgViews(p, "logger") {
+			loggerFns = append(loggerFns, sx.WithClosures(v.Fn)...)
+		}
+		for _, fn := range loggerFns {
+			fn := fn
 			sx.Instrs(fn, func(in ssa.Instruction) {
 				st, ok := in.(*ssa.Store)
 				if !ok {
@@ -299,7 +374,8 @@ func runC15(p *core.Prog, r *core.Report) {
 					return
 				}
 				zero := statusZeroEdges(fn)
-				if fn != endClosure || len(zero) == 0 || !sx.MustPass(fn, nil, in, sx.Cut{Edges: zero}) {
+				isEnd := fn == endClosure || (endClosure.Parent() == nil && sameFn(fn, endClosure))
+				if !isEnd || len(zero) == 0 || !sx.MustPass(fn, nil, in, sx.Cut{Edges: zero}) {
 					okDef = false
 					where = append(where, fnName(fn)+" at "+p.Pos(in.Pos()))
 				}
